@@ -79,6 +79,7 @@ def _f(x):
 # For tsss (value = A * theta * sin(theta), theta = arccos(c) + 10deg, not invertible
 # from the value alone) the pre-image rule is applied as a band: the observed value
 # must lie between the extreme reference values over c +- (1e-6*scale_c + 2**-19|c|).
+# Likewise wasserstein_1d (pre-image = the vector of CDF differences; see band_wasserstein_1d).
 
 def tol(a, r, scale=1.0):
     return ABS_TOL * scale + REL_TOL * max(abs(a), abs(r))
@@ -365,6 +366,22 @@ def ref_wasserstein_1d(x, y, p=1):
     return float(np.sum(np.abs(F - G) ** float(p)) ** (1.0 / float(p)))
 
 
+def band_wasserstein_1d(x, y, kwds, scale):
+    """value = ||F - G||_p over the CDFs.  Each CDF entry is a sum of float32-rounded quotients (the sparse
+    kernel divides float32 by a float32 sum), so the pre-image -- the vector of CDF differences D_i -- carries
+    absolute rounding; |D|^p with p < 1 amplifies it without bound at D_i = 0 (an exact 0 that becomes 6e-8
+    contributes 2.4e-4 for p = 1/2).  The tolerance is therefore applied to the pre-image: the observed value
+    must lie between the values obtained with every |D_i| moved by -eps_i / +eps_i,
+    eps_i = 1e-6 max(1, dim/8) + 2**-19 |D_i|."""
+    p = float(kwds.get("p", 1))
+    F, G = _cdfs(x, y)
+    d = np.abs(F - G)
+    eps = ABS_TOL * max(1.0, len(d) / 8.0) + REL_TOL * d
+    hi = float(np.sum((d + eps) ** p) ** (1.0 / p))
+    lo = float(np.sum(np.maximum(d - eps, 0.0) ** p) ** (1.0 / p))
+    return lo, hi
+
+
 def ref_circular_kantorovich(x, y, p=1):
     if p != 1:
         return None        # no documented definition for p != 1 (D7f); only NaN / symmetry / identity
@@ -591,18 +608,6 @@ def _mag_tsss(x, y, kw):
     return nx * ny * (nx + ny) ** 2
 
 
-def _mag_wasserstein_1d(x, y, kw):
-    # value = ||F - G||_p over the CDFs, whose entries carry absolute rounding eps ~ 1e-7 (the sparse
-    # kernel normalises by a float32 sum).  For p >= 1, |d value| <= dim^(1/p) eps <= dim eps: the generic
-    # dim/8 factor covers it.  For p < 1 the quasi-norm has sensitivity S^(1/p-1) sum_i v_i^(p-1) ~ dim^(1/p)
-    # (= its largest possible value, all |F_i-G_i| = 1), so the absolute part is 1e-6 dim^(1/p).
-    p = float(kw.get("p", 1))
-    dim = max(len(x), 1)
-    if p >= 1.0:
-        return 1.0
-    return dim ** (1.0 / p) / max(1.0, dim / 8.0)
-
-
 def _mag_cost(x, y, kw):
     return max(float(np.max(np.abs(kw["cost"]))), 0.0)
 
@@ -683,7 +688,7 @@ _wasserstein_1d = _e(ref_wasserstein_1d, "nonneg_mass", "p = 1: scipy.stats.wass
                      "p != 1: what the kernel and test_wasserstein_1d (dense = sparse) define, the l_p distance of "
                      "the CDFs (sum |F_i-G_i|^p)^(1/p); zero mass is outside the domain (N7)",
                      kwds_gen=_kw_wasserstein_1d, argorder=("p",), zero="never",
-                     mag=_mag_wasserstein_1d)
+                     band=band_wasserstein_1d)
 _circular = _e(ref_circular_kantorovich, "nonneg_mass", "p = 1: circular earth mover's distance min_mu sum|F_i-G_i-mu| "
                "(evaluated over all candidate mu, no median); p != 1: no documented definition (the kernel shifts by "
                "median((F-G)^p)), value not checked, symmetry is (D7f: p = 2 asymmetric)",
